@@ -11,6 +11,12 @@ pub const TINY: f64 = 8.673617379884035e-19;
 pub const S_TINY: [f64; 4] = [1.0 * TINY, 2.0 * TINY, 4.0 * TINY, 7.0 * TINY];
 /// values spanning 26 decades (outlier spikes)
 pub const S_WIDE: [f64; 5] = [1.0, 3.0, 1e9, 1e17, 1e-9];
+/// positive prices near the top of the f64 range: intermediate products such as 100 * x overflow here
+pub const S_HUGE: [f64; 4] = [1e307, 7e307, 2e307, 4e307];
+/// inexact positive prices (for spike alphabets: integers are exactly representable next to a 2.5e8 spike)
+pub const S_POS_X: [f64; 4] = [0.1, 0.7, 3.3, 1.3];
+/// neighbours one and four ulps apart, and a second cluster at 5e-15
+pub const S_ULP: [f64; 6] = [0.75, 0.7500000000000001, 0.7500000000000004, 1.0, 5.0e-15, 5.4e-15];
 pub const S_SPECIAL: [f64; 7] = [
     f64::NAN,
     f64::INFINITY,
